@@ -95,6 +95,7 @@ Definition lowered (p : pool) (i : cinsn) (e : entry) : Prop :=
   match i with
   | IRaw bs => e = Plain bs
   | ICp pre k post => exists x, e = Plain (pre ++ be16 x ++ post) /\ iconst_refers p k x
+  | IIface r => exists x n, e = Plain (185%N :: be16 x ++ [byte_of n; 0%N]) /\ refers get_imethodref r p x /\ args_size (mr_desc r) = Ok n
   | ILdc l => exists x, e = Plain (ldc_bytes l x) /\ loadable_refers p l x
   | IBr k l => e = Br k l
   | ITSwitch d low high ts => e = TSwitch d low high ts
@@ -104,12 +105,16 @@ Lemma lowered_mono p p' i e : pool_ext p p' -> lowered p i e -> lowered p' i e.
 Proof.
   intros He. destruct i; cbn [lowered]; auto.
   - intros (x & H1 & H2). exists x. split; [exact H1|eapply iconst_refers_mono; eauto].
+  - intros (x & n & H1 & H2 & H3). exists x, n. split; [exact H1|split; [eapply refers_mono; eauto|exact H3]].
   - intros (x & H1 & H2). exists x. split; [exact H1|eapply loadable_refers_mono; eauto].
 Qed.
 Lemma lower_insn_refers i : cinsn_ok i = true -> wspec (lower_insn i) (fun p e => lowered p i e).
 Proof.
   destruct i; cbn [lower_insn cinsn_ok lowered]; intros Hok; try (apply wspec_ret; intros; reflexivity).
   - eapply wspec_bind; [apply put_iconst_refers, Hok|]. intros x p0 Hx. apply wspec_ret. intros p He. exists x. split; [reflexivity|eapply iconst_refers_mono; eauto].
+  - eapply wspec_bind; [apply put_imethodref_spec|]. intros x p0 Hx.
+    eapply (wspec_bind _ _ (fun _ n => args_size (mr_desc r) = Ok n)); [apply wspec_lift_res; intros n p Hn; exact Hn|]. intros n p1 Hn.
+    apply wspec_ret. intros p He1 He0. exists x, n. split; [reflexivity|split; [eapply refers_mono; [|exact Hx]; eauto with pext|exact Hn]].
   - eapply wspec_bind; [apply put_loadable_refers, Hok|]. intros x p0 Hx. apply wspec_ret. intros p He. exists x. split; [reflexivity|eapply loadable_refers_mono; eauto].
 Qed.
 Lemma lower_all_refers (is : list (option label * option cframe * cinsn)) :
@@ -173,6 +178,7 @@ Qed.
 Definition operand_ok (p : pool) (w : bytes) (q : Z) (i : cinsn) : Prop :=
   match i with
   | ICp pre k post => exists x, bytes_at w q (pre ++ be16 x ++ post) /\ iconst_refers p k x
+  | IIface r => exists x n, bytes_at w q (185%N :: be16 x ++ [byte_of n; 0%N]) /\ refers get_imethodref r p x /\ args_size (mr_desc r) = Ok n
   | ILdc l => exists x, bytes_at w q (ldc_bytes l x) /\ loadable_refers p l x
   | _ => True
   end.
@@ -180,6 +186,7 @@ Lemma operand_ok_mono p p' w q i : pool_ext p p' -> operand_ok p w q i -> operan
 Proof.
   intros He. destruct i; cbn [operand_ok]; auto.
   - intros (x & H1 & H2). exists x. split; [exact H1|eapply iconst_refers_mono; eauto].
+  - intros (x & n & H1 & H2 & H3). exists x, n. split; [exact H1|split; [eapply refers_mono; eauto|exact H3]].
   - intros (x & H1 & H2). exists x. split; [exact H1|eapply loadable_refers_mono; eauto].
 Qed.
 
@@ -200,8 +207,10 @@ Proof.
   { apply Forall2_nth.
     - rewrite Hpos, positions_length by exact Hcl. rewrite <- (map_length fst es), Hes, map_length. reflexivity.
     - intros k i q Hi Hq. destruct (Forall2_nth_inv _ _ _ _ _ Flow Hi) as ([lb e] & He & Hlo). cbn [snd] in Hlo. rewrite Hpos in Hq.
-      destruct (snd i) as [bs|pre kk post|l|kd l|d lo hi ts|d ps]; cbn [operand_ok lowered] in *; try exact I.
+      destruct (snd i) as [bs|pre kk post|rr|l|kd l|d lo hi ts|d ps]; cbn [operand_ok lowered] in *; try exact I.
       + destruct Hlo as (x & -> & Hx). exists x. split; [|exact Hx].
+        destruct (encode_plain_at _ _ _ _ _ _ _ _ _ Henc He Hq) as (a & b & Hw & Hl). exists a, b. split; [exact Hw|lia].
+      + destruct Hlo as (x & n & -> & Hx & Hn). exists x, n. split; [|split; [exact Hx|exact Hn]].
         destruct (encode_plain_at _ _ _ _ _ _ _ _ _ Henc He Hq) as (a & b & Hw & Hl). exists a, b. split; [exact Hw|lia].
       + destruct Hlo as (x & -> & Hx). exists x. split; [|exact Hx].
         destruct (encode_plain_at _ _ _ _ _ _ _ _ _ Henc He Hq) as (a & b & Hw & Hl). exists a, b. split; [exact Hw|lia]. }
